@@ -54,7 +54,7 @@ PROPS = {
                        "char-boundary safety of span slicing beyond the reviewed lexer invariant",
     },
     "C04": {
-        "rules": [r_coord.run, r_doaction.rule_state_push, r_layers.rule_fill, r_layers.rule_press_dedup, r_doaction.rule_state_clear, r_buildall.run_for("C04")],
+        "rules": [r_coord.run, r_doaction.rule_state_push, r_layers.rule_fill, r_layers.rule_press_dedup, r_doaction.rule_state_clear, r_buildall.run_for("C04"), r_pipeline.run_cfg_mirror],
         "explanation": "Narrow: (R-FILL) the default fill of unassigned layer positions is decided from block-unmapped-keys and the "
                        "key only, never from the layer index, and position 0 is forced to NoOp; decides the release half of layered remapping — every state a press creates is keyed on the "
                        "coordinate (never the layer) and removed by Release at that coordinate (R-COORD); the key / layer / custom "
@@ -83,7 +83,7 @@ PROPS = {
         "not_decided": "which key is 'the next one', timeout arithmetic, stacking semantics — run-time values",
     },
     "C11": {
-        "rules": [r_keyid.run_all, r_layers.rule_mapped, r_coordspace.run, r_reload.rule_globals, r_buildall.run_for("C11")],
+        "rules": [r_keyid.run_all, r_layers.rule_mapped, r_coordspace.run, r_reload.rule_globals, r_buildall.run_for("C11"), r_keyid.rule_defsrc_identity],
         "level": "proof",
         "explanation": "Decides: (a) OsCode and KeyCode have identical discriminant sets and are repr(u16) — the exact soundness "
                        "condition of every enum transmute in the analysed crates, which are enumerated; (b) each arm n of "
@@ -128,7 +128,7 @@ PROPS = {
         "not_decided": "exact-set activation, press-order independence, decomposition order, v2 candidate search — run-time values",
     },
     "C12": {
-        "rules": [r_seq.run_all, r_buildall.run_for("C12")],
+        "rules": [r_seq.run_all, r_buildall.run_for("C12"), r_pipeline.run_cfg_mirror],
         "explanation": "Decides: (R-SEQ-CONFLICT) the only Trie::insert of the sequence table is dominated by ancestor_exists and "
                        "descendant_exists on the same key sequence, each with its true edge leading away from the insert; "
                        "(R-SEQ-BITS) key-code / modifier / overlap bit fields are disjoint and every modifier mask is a distinct "
@@ -168,7 +168,7 @@ PROPS = {
                        "(e.g. simultaneous vs sequential parameter substitution) — relations between two programs",
     },
     "C14": {
-        "rules": [r_traverse.run_repeat, r_repeat.run_outputs, r_repeat.run, r_repeat.run_collect, r_scratch.run, r_buildall.run_for("C14")],
+        "rules": [r_traverse.run_repeat, r_repeat.run_outputs, r_repeat.run, r_repeat.run_collect, r_scratch.run, r_buildall.run_for("C14"), r_keyid.rule_gate, r_repeat.run_scan],
         "explanation": "Decides: the repeat-table builder passes every nested action of every Action variant (derived from the "
                        "type) to its recursion and records every key-code-bearing variant (R-TRAVERSE, R-RPT-TABLE); in "
                        "handle_repeat_actual every write of a repeat is reachable only through a 'key currently held' test, at "
